@@ -3,7 +3,7 @@
    completeness of the default batch functions this gives completeness of batch_open / batch_check for Ligero and Brakedown. *)
 From Coq Require Import List Arith NArith Bool Lia Field Ring.
 From PC Require Import Base.Field Base.Result Base.Poly Base.OrdMap Proofs.PolyFacts Schemes.CalcT Schemes.Ligero Proofs.LigeroFacts
-     Schemes.LC Schemes.DefaultBatch Proofs.DefaultBatchFacts Proofs.DefaultBatchComplete Schemes.LinCodeList.
+     Schemes.LC Schemes.DefaultBatch Proofs.DefaultBatchFacts Proofs.DefaultBatchComplete Proofs.DefaultLCComplete Schemes.LinCodeList.
 Import ListNotations.
 Open Scope F_scope.
 
@@ -351,5 +351,23 @@ Section LinCodeListFacts.
     refine (default_batch_complete LCm (LCm * list (list F)) (list LProof) (list sq_ev)
              (lc_check_list tensor wf) (lc_open_list tensor wf) R_lc (fun it pt => lc_value pt it) _ items cs qs ev tape pfs rest Hm He H).
     intros its cs0 pt st pf st' HF Ho. exact (lc_list_complete wf its cs0 pt st pf st' HF Ho).
+  Qed.
+
+  (* open_combinations then check_combinations (the trait defaults): accepted, same final transcript state *)
+  Theorem lc_combinations_complete wf lcs items cs eqn_qs eqn_ev tape pfs evs rest :
+    maps_agree LCm (LCm * list (list F)) R_lc (label_map items) (label_map cs) ->
+    one_point_per_label eqn_qs ->
+    (forall q terms, In q eqn_qs -> OrdMap.lookup N.compare (fst q) (lcs_map lcs) = Some terms ->
+        lookup_pk (fst q, snd (snd q)) eqn_ev
+        = Some (LC.lc_value (item_value (LCm * list (list F)) (fun it pt => lc_value pt it) (label_map items) (snd (snd q))) terms)) ->
+    default_open_combinations (LCm * list (list F)) (list LProof) (list sq_ev) (lc_open_list tensor wf) (fun it pt => lc_value pt it)
+                              lcs items eqn_qs tape = Ok (pfs, evs, rest) ->
+    default_check_combinations LCm (list LProof) (list sq_ev) (lc_check_list tensor wf) lcs cs eqn_qs eqn_ev pfs (Some evs) tape
+    = Ok (true, rest).
+  Proof.
+    intros Hm Ho Hc H.
+    refine (default_lc_complete LCm (LCm * list (list F)) (list LProof) (list sq_ev) (lc_check_list tensor wf) (lc_open_list tensor wf)
+              R_lc (fun it pt => lc_value pt it) _ lcs items cs eqn_qs eqn_ev tape pfs evs rest Hm Ho Hc H).
+    intros its cs0 pt st pf st' HF Ho'. exact (lc_list_complete wf its cs0 pt st pf st' HF Ho').
   Qed.
 End LinCodeListFacts.
